@@ -34,6 +34,13 @@ def scenario(rng, i):
     format subsets, its content kept / altered / restored in between, folder mode and -sf mode"""
     if i % 7 == 5:
         return same_relative_name(rng)
+    if i % 11 == 3:
+        # names that begin or end with a blank: the same file in every generation, read back under the same name
+        t = {" lead.wav": {"f": gen.gen_content(rng) or "01"}, "trail.mov ": {"f": gen.gen_content(rng) or "02"}, " both ": {"d": {" x ": {"f": "03"}}}}
+        st = [{"op": "create", "fmts": gen.gen_fmts(rng, kmax=3)} for _ in range(rng.choice([2, 3]))]
+        if rng.random() < 0.5:
+            st.insert(1, {"op": "set", "path": rng.choice([" lead.wav", "trail.mov ", " both / x "]), "data": "0a0b"})
+        return {"tree": t, "steps": st + [{"op": "verify"}, {"op": "create", "fmts": gen.gen_fmts(rng, kmax=6)}]}
     if i % 3 == 0:
         tree = {"a.txt": {"f": gen.gen_content(rng)}}
     else:
